@@ -23,7 +23,7 @@ def run(ctx):
     pdir, plans = ctx.tlc_plans(fam, "Lanes_Gen", "Lanes_Gen.cfg", num=ctx.q(300, 5000), depth=44)
     binary = ctx.go_build("c14")
     ctx.harness(binary, ["-plans", pdir, "-out", ctx.path("steps.ndjson"), "-stress", ctx.path("stress.ndjson"),
-                         "-seed", ctx.seed, "-rand", ctx.q(60, 1500), "-nstress", ctx.q(24, 600)],
+                         "-seed", ctx.seed, "-rand", ctx.q(60, 1500), "-nstress", ctx.q(16, 600)],
                 timeout=2400)
     steps = ctx.load_traces(ctx.path("steps.ndjson"))
     stress = ctx.load_traces(ctx.path("stress.ndjson"))
@@ -51,9 +51,13 @@ def run(ctx):
         "ended, result vs context error when both are available, pchan backlog after Stop",
     ]
     return ctx.finish(
-        rule="plans = TLC simulation of Lanes.tla (7 calls, kinds line/mline/runq/pchan, lanes 1,2,3,7, queue "
-             "sizes 0,1,2, hashes incl. MinInt, MinInt+1, MaxInt, +-lanes) + seeded schedules (12 calls, queue "
-             "sizes 0,1,2,8, random 63-bit hashes) + free-running stress (2-4 callers, concurrent cancel/Stop)",
+        rule="plans = TLC simulation of Lanes.tla (7 calls, lanes 1,2,3,7, queue sizes 0,1,2, hashes incl. MinInt, "
+             "MinInt+1, MaxInt, +-lanes; Stop by the owner or by the callee of a running call, before or after "
+             "Run), each applied to line/mline/runq/pchan in turn + seeded schedules (12 calls, queue sizes "
+             "0,1,2,8, random 63-bit hashes, same-hash bursts that fill a lane, submissions right behind Stop) + "
+             "free-running stress (2-4 callers, concurrent cancel, Stop from a goroutine or from a callee). Stop "
+             "is never called on the driver: `stopr` is logged when it returns, a parked Stop is legal until the "
+             "final quiescent point (consumers started, Stop called, every gate opened), where Final must hold",
         explanation="callee start/end with the lane index handed over, every caller's reply, and at each quiescent "
                     "point 'nothing is pending', live executor goroutines and termination must be explained by "
                     "Lanes.tla (same actions as the exhaustive runs; acceptance moments, skips and lane closing "
